@@ -64,7 +64,7 @@ def stepEvent (m : M) (op : String) (args : List String) : M × String :=
     match getG' m (nat i) with
     | none => ({ m with bad := true }, "DISABLED spawn")
     | some (m, g) =>
-      let s := m.s
+      let s := maybeRebind m.s g true
       match step s (.look g) with
       | none => ({ m with bad := true }, "DISABLED look")
       | some s' => ({ m with s := s' }, match s'.pend g with | .got r => "hit r" ++ toString r | _ => "miss")
